@@ -236,6 +236,8 @@ def all_families(nws=(1, 2, 3)):
         out += select_cases(nw)
         out += failure_cases(nw)
         out += heap_cases(nw)
+        out += ref_cases(nw)
+        out += resource_cases(nw)
     return out
 
 
@@ -304,3 +306,62 @@ HEAP_SESSIONS = [
     ["a = [0x01, 0x02] __binary_concat__", "this does not parse (", "b = [a, undefined_name]", "a", "a = 0"],
     ["t = [[0x01, 0x02] __binary_concat__, [0x03, 0x04] __binary_concat__]", "[u, v] = t", "t = 0", "u", "u = 0", "v"],
 ]
+
+
+# ---------------------------------------------------------------- C13 refs: minted under every placement
+def ref_cases(nw=2):
+    out = []
+    # every spawned process mints two refs and returns exactly those; the entry process mints, awaits all, returns all
+    leaf = [mint(1), mint(2), ret(t(r(1), r(2)))]
+    s = scenario("refs_fan_w%d" % nw,
+                 [[mint(6), spawn(1, 2), spawn(2, 3), mint(7), select(4, aw(1)), select(5, aw(2)),
+                   ret(t(r(6), r(7), r(4), r(5)))], leaf, leaf], nw=nw)
+    out.append(meta(s, False, True, ["C13"]))
+    # refs travelling in messages and coming back
+    s = scenario("refs_roundtrip_w%d" % nw,
+                 [[spawn(1, 2), spawn(2, 3, r(1)), select(3, aw(1)), select(4, aw(2)), ret(t(r(3), r(4)))],
+                  [mint(1), select(2, recv(("ref",))), mint(3), ret(t(r(1), r(3)))],
+                  [mint(2), send(1, r(2)), mint(3), ret(t(r(2), r(3)))]], nw=nw)
+    out.append(meta(s, False, True, ["C13", "C04"]))
+    return out
+
+
+# ---------------------------------------------------------------- C14 resources
+def resource_cases(nw=2):
+    out = []
+    # owner opens, uses, finishes while awaited: closed exactly once at exit
+    s = scenario("res_owner_awaited_w%d" % nw,
+                 [[spawn(1, 2), select(2, aw(1)), ret(r(2))],
+                  [ropen(1), ruse(2, 1), ret(r(2))]], nw=nw, io=True)
+    out.append(meta(s, True, True, ["C14"]))
+    # explicit close, then exit
+    s = scenario("res_explicit_close_w%d" % nw,
+                 [[spawn(1, 2), select(2, aw(1)), ret(r(2))],
+                  [ropen(1), ruse(2, 1), rclose(1), ret(r(2))]], nw=nw, io=True)
+    out.append(meta(s, True, True, ["C14"]))
+    # the handle is sent to another process, which uses it; the old owner tries to use it afterwards and
+    # fails without reaching the backend; the new owner outlives the attempt
+    s = scenario("res_sent_w%d" % nw,
+                 [[spawn(1, 2), spawn(2, 3, r(1)), select(3, tmo(3)), send(1, c(I(5))), select(4, aw(1)), ret(r(4))],
+                  [select(1, recv(("res",))), ruse(2, 1), select(3, recv(("int",))), ret(r(2))],
+                  [ropen(2), send(1, r(2)), ruse(4, 2), ret(r(4))]], nw=nw, io=True, maxtick=3)
+    out.append(meta(s, False, False, ["C14", "C15"]))
+    # the handle is captured by a spawned process (ownership moves at the spawn), nested in a tuple
+    s = scenario("res_captured_w%d" % nw,
+                 [[spawn(1, 2), select(2, aw(1)), ret(r(2))],
+                  [ropen(1), spawn(2, 3, t(r(1), c(I(1)))), select(3, aw(2)), ret(r(3))],
+                  [ret(c(I(7)))]], nw=nw, io=True)
+    out.append(meta(s, True, True, ["C14"]))
+    # a handle left in a mailbox of a process that finishes without receiving it
+    s = scenario("res_in_mailbox_w%d" % nw,
+                 [[spawn(1, 2), spawn(2, 3, r(1)), select(3, aw(2)), send(1, c(I(1))), select(4, aw(1)), ret(r(4))],
+                  [select(1, recv(("int", "res"), acc=[I(1)])), ret(r(1))],
+                  [ropen(2), send(1, r(2)), ret(OKE)]], nw=nw, io=True)
+    out.append(meta(s, True, True, ["C14"]))
+    # an owner nobody awaits (the known finding: its resource is never closed)
+    s = scenario("res_owner_unawaited_w%d" % nw,
+                 [[spawn(1, 2), spawn(2, 3), select(3, aw(2)), ret(r(3))],
+                  [ropen(1), ret(OKE)],
+                  [select(1, tmo(2)), ret(c(I(7)))]], nw=nw, io=True, maxtick=2)
+    out.append(meta(s, True, True, ["C14"]))
+    return out
